@@ -445,6 +445,8 @@ class Folder:
             return self.ev(t[2])
         if k in ('sizeof', 'alignof'):
             ty = t[1]
+            if k == 'alignof' and ('alignof:' + ty) in self.generic:
+                return self.generic['alignof:' + ty]
             if ty in self.generic:
                 return self.generic[ty]
             lay = type_layout(ty)
